@@ -19,6 +19,7 @@ import Proofs.Protocol
 import Proofs.SeqInv
 import Proofs.Align
 import Proofs.ConflictSeq
+import Proofs.AddSpec
 import Properties.C02
 namespace Pulser
 namespace C03
@@ -241,6 +242,66 @@ theorem no_conflict (dev : Device) (nQ : Nat) (hd : DevOk dev) (s : SeqState)
       (fmtPhase (correctedPhase p drift (curMaxOf (s.others n) last barriers proto))) proto)
   omega
 
+/-- **No conflict, at the level of the API call.**  From any reachable state, when
+`seq.add(pulse, channel, protocol)` with 'min-delay' or 'wait-for-all' succeeds, the pulse
+instruction it appended on the channel starts no earlier than the end, fall time included, of
+the most recent pulse sharing a target atom (any pulse under 'wait-for-all') on every other
+channel of the sequence as it was before the call. -/
+theorem add_no_conflict (dev : Device) (nQ : Nat) (hd : DevOk dev) (s : SeqState)
+    (hr : C02.Reach dev nQ s) (hfall : FallHyp s) (p : PulseIn) (n : ChName) (proto : Protocol)
+    (hproto : proto ≠ .noDelay) (hok : (stepRaw s (.add p n (some proto))).err = none) :
+    ∃ (c c' : ChanState) (last slot : Slot),
+      s.getChan n = some c ∧ c.last = .ok last ∧
+      (stepRaw s (.add p n (some proto))).st.getChan n = some c' ∧ c'.last = .ok slot ∧
+      ∀ ch ∈ s.others n, ∀ q pq,
+        recentShared last.targets (proto == .waitForAll) ch.slots.reverse = some (q, pq) →
+        q.tf + (pq.fall ch.inEomMode : Nat) ≤ slot.ti := by
+  have hinvs : SeqInv s := by
+    have := C02.timeline_inv dev nQ hd s hr
+    obtain ⟨evs, rfl⟩ := hr
+    have hdev : (runEv (SeqState.init dev nQ) evs).dev = dev :=
+      (runEv_SG (s := SeqState.init dev nQ) hd (by intro c hc; simp [SeqState.init] at hc) evs).2.1
+    intro c hc; rw [hdev]; exact this c hc
+  have hdev : s.dev = dev := by
+    obtain ⟨evs, rfl⟩ := hr
+    exact (runEv_SG (s := SeqState.init dev nQ) hd (by intro c hc; simp [SeqState.init] at hc) evs).2.1
+  simp only [stepRaw] at hok ⊢
+  have h1 := store_ok hok
+  have h2 := markNonEmpty_ok h1.1
+  -- the call reached `_add`
+  have hcore : ∃ r, r = addCore s p n (some proto) none ∧ r.err = none ∧
+      (stepRaw s (.add p n (some proto))).st.chans = r.st.chans := by
+    simp only [stepRaw]
+    refine ⟨_, rfl, ?_, ?_⟩
+    · have := h2.1
+      split at this
+      · simp [fail] at this
+      · split at this
+        · simp [fail] at this
+        · split at this
+          · simp [fail] at this
+          · exact this
+    · rw [h1.2, h2.2]
+      have := h2.1
+      split at this
+      · simp [fail] at this
+      · split at this
+        · simp [fail] at this
+        · split at this
+          · simp [fail] at this
+          · rename_i hm _ _ _ hdm
+            simp only [hm, hdm]
+            rfl
+  obtain ⟨r, hr1, hr2, hr3⟩ := hcore
+  subst hr1
+  obtain ⟨c, c', last, slot, pr, ref, hgc, hl, _, hm, hget, hl'⟩ := addCore_ok_spec hinvs hr2
+  refine ⟨c, c', last, slot, hgc, hl, ?_, hl', ?_⟩
+  · simp only [stepRaw] at hr3
+    rw [getChan_of_chans hr3]; exact hget
+  · intro ch hch q pq hq
+    rw [hdev] at hm
+    exact no_conflict dev nQ hd s hr hfall hgc hch hl hm hproto hq
+
 /-! ### Non-vacuity -/
 
 def cfgA : ChanCfg := { clock := 4, minDur := 16, rise := 120, pjt := 240 }
@@ -295,6 +356,16 @@ example :
     ((exL.chans[0]?.map fun ch => (recentShared [0] false ch.slots.reverse).map fun x => (x.1.ti, x.1.tf, x.2.fallStd))
       = some (some (0, 400, 200))) :=
   ⟨C02.Reach.of_run exDevL 2 exOpsL, fallHyp_of_B (by decide +kernel), by decide +kernel, by decide +kernel⟩
+
+/-- `add_no_conflict` applies to that state: the `add` on channel 1 (atom 0) succeeds, and the new
+pulse starts at 600 = 400 + 200 — the end plus fall time of the pulse on atom 0 that channel 0
+played *before* it was retargeted — not at 820 (end + fall of channel 0's latest pulse, which
+is on atom 1). -/
+example :
+    (stepRaw exL (.add { dur := 52, ref := 3 } (.user 1) (some .minDelay))).err = none ∧
+    (((stepRaw exL (.add { dur := 52, ref := 3 } (.user 1) (some .minDelay))).st.getChan (.user 1)).map
+      fun c => c.slots.map fun s => (s.ti, s.tf)) = some [(-1, 0), (0, 600), (600, 652)] := by
+  constructor <;> decide +kernel
 
 end C03
 end Pulser
